@@ -113,6 +113,9 @@ struct Slot {
     b: B,
     ids: Vec<u32>,
     foreign: bool,
+    /// C-made with `drop_fn = NULL`: the foreign module keeps ownership of the block and of the
+    /// payload; Rust may use the box and must leave both alone when it drops it
+    unowned: bool,
 }
 
 struct State {
@@ -120,6 +123,9 @@ struct State {
     reg: Arc<Reg>,
     next_id: u32,
     z_expected: i32,
+    /// payloads (and their blocks) of not-owned boxes that Rust has dropped: still alive, still
+    /// the foreign module's
+    kept: Vec<(u32, usize)>,
 }
 
 fn fresh(st: &mut State) -> (Pay, u32) {
@@ -137,19 +143,19 @@ fn apply(st: &mut State, step: &Step, counts: &mut Vec<&'static str>) -> Result<
             if st.slots[s].is_some() {
                 return Ok("BNew noop".into());
             }
-            let kind = step.arg(1).rem_euclid(10);
+            let kind = step.arg(1).rem_euclid(11);
             let slot = match kind {
                 0 => {
                     let (p, id) = fresh(st);
-                    Slot { b: B::Box(track(|| CBox::from(p))), ids: vec![id], foreign: false }
+                    Slot { b: B::Box(track(|| CBox::from(p))), ids: vec![id], foreign: false, unowned: false }
                 }
                 1 => {
                     let (p, id) = fresh(st);
-                    Slot { b: B::Box(track(|| CBox::from(Box::new(p)))), ids: vec![id], foreign: false }
+                    Slot { b: B::Box(track(|| CBox::from(Box::new(p)))), ids: vec![id], foreign: false, unowned: false }
                 }
                 2 => {
                     let (p, id) = fresh(st);
-                    Slot { b: B::Box(track(|| CBox::from((p, NoContext::default())))), ids: vec![id], foreign: false }
+                    Slot { b: B::Box(track(|| CBox::from((p, NoContext::default())))), ids: vec![id], foreign: false, unowned: false }
                 }
                 3 => {
                     // made by the foreign module through the published layout
@@ -162,7 +168,7 @@ fn apply(st: &mut State, step: &Step, counts: &mut Vec<&'static str>) -> Result<
                         FOREIGN_LIVE.lock().unwrap().push(mem as usize);
                         cview::view::<BoxView, CBox<'static, Pay>>(BoxView { instance: mem as *mut c_void, drop_fn: Some(foreign_box_drop) })
                     };
-                    Slot { b: B::Box(b), ids: vec![id], foreign: true }
+                    Slot { b: B::Box(b), ids: vec![id], foreign: true, unowned: false }
                 }
                 9 => {
                     // a slice box made by the foreign module: 0..=2 elements in a buffer of its own
@@ -183,23 +189,37 @@ fn apply(st: &mut State, step: &Step, counts: &mut Vec<&'static str>) -> Result<
                         FOREIGN_LIVE.lock().unwrap().push(mem as usize);
                         cview::view::<SliceBoxView<Pay>, CSliceBox<'static, Pay>>(SliceBoxView { instance: SliceView { data: mem, len }, drop_fn: Some(foreign_slice_drop) })
                     };
-                    Slot { b: B::Slice(b), ids, foreign: true }
+                    Slot { b: B::Slice(b), ids, foreign: true, unowned: false }
+                }
+                10 => {
+                    // C-made, not owned: `drop_fn` is NULL
+                    let (p, id) = fresh(st);
+                    counts.push("fault.foreign_module");
+                    counts.push("probe.c_made_box_without_drop_fn");
+                    let b = unsafe {
+                        let mem = std::alloc::GlobalAlloc::alloc(&std::alloc::System, std::alloc::Layout::new::<Pay>()) as *mut Pay;
+                        std::ptr::write(mem, p);
+                        alloc::register_foreign(mem as *const u8, std::mem::size_of::<Pay>());
+                        FOREIGN_LIVE.lock().unwrap().push(mem as usize);
+                        cview::view::<BoxView, CBox<'static, Pay>>(BoxView { instance: mem as *mut c_void, drop_fn: None })
+                    };
+                    Slot { b: B::Box(b), ids: vec![id], foreign: true, unowned: true }
                 }
                 7 => {
                     let v = [step.arg(2) as u64, 0x1122_3344, !0u64];
-                    Slot { b: B::Plain(track(|| if step.arg(2) & 1 == 0 { CBox::from(v) } else { CBox::from(Box::new(v)) })), ids: vec![], foreign: false }
+                    Slot { b: B::Plain(track(|| if step.arg(2) & 1 == 0 { CBox::from(v) } else { CBox::from(Box::new(v)) })), ids: vec![], foreign: false, unowned: false }
                 }
                 4 => {
                     Z_LIVE.fetch_add(1, Ordering::SeqCst);
                     st.z_expected += 1;
-                    Slot { b: B::ZBox(track(|| CBox::from(ZPay))), ids: vec![], foreign: false }
+                    Slot { b: B::ZBox(track(|| CBox::from(ZPay))), ids: vec![], foreign: false, unowned: false }
                 }
                 8 => {
                     let n = step.arg(2).rem_euclid(4) as i32 + 1;
                     Z_LIVE.fetch_add(n, Ordering::SeqCst);
                     st.z_expected += n;
                     let v: Vec<ZPay> = (0..n).map(|_| ZPay).collect();
-                    Slot { b: B::ZSlice(track(|| CSliceBox::from(v.into_boxed_slice())), n), ids: vec![], foreign: false }
+                    Slot { b: B::ZSlice(track(|| CSliceBox::from(v.into_boxed_slice())), n), ids: vec![], foreign: false, unowned: false }
                 }
                 _ => {
                     let len = step.arg(2).clamp(0, 5) as usize;
@@ -213,7 +233,7 @@ fn apply(st: &mut State, step: &Step, counts: &mut Vec<&'static str>) -> Result<
                     if len == 0 {
                         counts.push("probe.empty_slice_box");
                     }
-                    Slot { b: B::Slice(track(|| CSliceBox::from(v.into_boxed_slice()))), ids, foreign: false }
+                    Slot { b: B::Slice(track(|| CSliceBox::from(v.into_boxed_slice()))), ids, foreign: false, unowned: false }
                 }
             };
             st.slots[s] = Some(slot);
@@ -289,7 +309,7 @@ fn apply(st: &mut State, step: &Step, counts: &mut Vec<&'static str>) -> Result<
         "BOpaque" => {
             let s = sl(step.arg(0));
             let Some(slot) = st.slots[s].take() else { return Ok("BOpaque noop".into()) };
-            let Slot { b, ids, foreign } = slot;
+            let Slot { b, ids, foreign, unowned } = slot;
             let b = match b {
                 B::Box(x) => B::Opaque(track(|| x.into_opaque())),
                 B::Slice(x) => B::OpaqueSlice(track(|| x.into_opaque())),
@@ -297,7 +317,7 @@ fn apply(st: &mut State, step: &Step, counts: &mut Vec<&'static str>) -> Result<
                 B::OpaqueSlice(x) => B::Slice(unsafe { std::mem::transmute::<CSliceBox<'static, gvoid>, CSliceBox<'static, Pay>>(x) }),
                 other => other,
             };
-            st.slots[s] = Some(Slot { b, ids, foreign });
+            st.slots[s] = Some(Slot { b, ids, foreign, unowned });
             Ok(format!("BOpaque slot={}", s))
         }
         "BInner" => {
@@ -325,6 +345,15 @@ fn apply(st: &mut State, step: &Step, counts: &mut Vec<&'static str>) -> Result<
             }
             if let B::ZSlice(_, n) = &slot.b {
                 st.z_expected -= *n;
+            }
+            if slot.unowned {
+                // whoever drops it: payload and block stay with the foreign module
+                let ptr = match &slot.b {
+                    B::Box(x) => unsafe { std::ptr::read(x as *const _ as *const BoxView).instance as usize },
+                    B::Opaque(x) => unsafe { std::ptr::read(x as *const _ as *const BoxView).instance as usize },
+                    _ => 0,
+                };
+                st.kept.push((slot.ids[0], ptr));
             }
             if party == 1 {
                 counts.push("party.c");
@@ -482,13 +511,16 @@ fn check(st: &State, when: &str) -> VResult {
             want[*id as usize] += 1;
         }
     }
+    for (id, _) in &st.kept {
+        want[*id as usize] += 1;
+    }
     for id in 0..st.next_id {
         let live = st.reg.live[id as usize].load(Ordering::SeqCst);
         vcheck!(live == want[id as usize], "box.drop_mismatch", "payload", "{}: payload {} has {} live instance(s), the model expects {}", when, id, live, want[id as usize]);
     }
     vcheck!(Z_NEG.load(Ordering::SeqCst) == 0 && Z_LIVE.load(Ordering::SeqCst) == st.z_expected, "box.drop_mismatch", "zst", "{}: zero-sized payloads: {} live, model expects {}", when, Z_LIVE.load(Ordering::SeqCst), st.z_expected);
     vcheck!(FOREIGN_BAD.load(Ordering::SeqCst) == 0, "box.foreign_books", "drop_fn", "{}: the foreign module's drop function was called for a box it does not own (double drop)", when);
-    let foreign_live = st.slots.iter().flatten().filter(|s| s.foreign).count();
+    let foreign_live = st.slots.iter().flatten().filter(|s| s.foreign).count() + st.kept.len();
     vcheck!(FOREIGN_LIVE.lock().unwrap().len() == foreign_live, "box.foreign_books", "drop_fn", "{}: foreign module has {} live box(es), the model {}", when, FOREIGN_LIVE.lock().unwrap().len(), foreign_live);
     simcore::check_alloc("box")
 }
@@ -535,7 +567,7 @@ impl Engine for CBoxEngine {
             let s0 = rng.below(pool as u64) as i64;
             let party = if c_party && rng.chance(1, 3) { 1 } else { 0 };
             match op {
-                "BNew" => p.push(t, op, &[s0, rng.range(0, 9), rng.range(0, 4)]),
+                "BNew" => p.push(t, op, &[s0, rng.range(0, 10), rng.range(0, 4)]),
                 "BRead" | "BDrop" => p.push(t, op, &[s0, party]),
                 "BWrite" => p.push(t, op, &[s0, rng.range(0, 4)]),
                 "Tags" => p.push(t, op, &[*rng.pick(&[0, 1, -1, i32::MAX as i64, i32::MIN as i64, 77]), rng.range(0, 6)]),
@@ -553,7 +585,7 @@ impl Engine for CBoxEngine {
         Z_NEG.store(0, Ordering::SeqCst);
         FOREIGN_BAD.store(0, Ordering::SeqCst);
         FOREIGN_LIVE.lock().unwrap().clear();
-        let mut st = State { slots: (0..npool).map(|_| None).collect(), reg: Reg::new(), next_id: 0, z_expected: 0 };
+        let mut st = State { slots: (0..npool).map(|_| None).collect(), reg: Reg::new(), next_id: 0, z_expected: 0, kept: Vec::new() };
         let mut result: VResult = Ok(());
         for (i, step) in plan.steps.iter().enumerate() {
             ctx.cur_step = i as i64;
@@ -604,10 +636,23 @@ impl Engine for CBoxEngine {
                 if let B::ZSlice(_, n) = &slot.b {
                     st.z_expected -= *n;
                 }
+                if slot.unowned {
+                    let ptr = match &slot.b {
+                        B::Box(x) => unsafe { std::ptr::read(x as *const _ as *const BoxView).instance as usize },
+                        B::Opaque(x) => unsafe { std::ptr::read(x as *const _ as *const BoxView).instance as usize },
+                        _ => 0,
+                    };
+                    st.kept.push((slot.ids[0], ptr));
+                }
                 track(|| drop(slot.b));
             }
         }
         check(&st, "at quiescence")?;
+        // the foreign module now releases what it never gave away
+        for (_, ptr) in std::mem::take(&mut st.kept) {
+            unsafe { foreign_box_drop(ptr as *mut c_void) };
+        }
+        check(&st, "after the foreign module released its not-owned boxes")?;
         simcore::check_no_leak("box")
     }
 }
